@@ -3,8 +3,21 @@ package exec
 import (
 	"sort"
 
+	"github.com/ChrisTrenkamp/xsel/node"
 	"github.com/ChrisTrenkamp/xsel/store"
 )
+
+// isAttributeOrNamespace reports whether the cursor holds an attribute or a
+// namespace node.  These have a parent but are not among its children, so
+// they have no siblings.
+func isAttributeOrNamespace(cursor store.Cursor) bool {
+	switch cursor.Node().(type) {
+	case node.Attribute, node.Namespace:
+		return true
+	}
+
+	return false
+}
 
 func unique(s []store.Cursor) []store.Cursor {
 	if len(s) == 0 {
@@ -143,13 +156,15 @@ func selectFollowing(nodeSet NodeSet) Result {
 }
 
 func appendFollowing(cursor store.Cursor, result []store.Cursor) []store.Cursor {
-	parent := cursor.Parent()
-
-	if parent.Pos() == 0 {
+	// Nothing follows the root node.
+	if cursor.Pos() == 0 {
 		return result
 	}
 
-	found := false
+	parent := cursor.Parent()
+
+	// Every child of the parent follows its attributes and namespace nodes.
+	found := isAttributeOrNamespace(cursor)
 
 	for _, i := range parent.Children() {
 		if i.Pos() == cursor.Pos() {
@@ -177,23 +192,20 @@ func selectFollowingSibling(nodeSet NodeSet) Result {
 }
 
 func appendFollowingSibling(cursor store.Cursor, result []store.Cursor) []store.Cursor {
-	parent := cursor.Parent()
-
-	if parent.Pos() == 0 {
+	// The root, attributes and namespace nodes have no siblings.
+	if cursor.Pos() == 0 || isAttributeOrNamespace(cursor) {
 		return result
 	}
 
-	children := parent.Children()
-	start := 0
+	children := cursor.Parent().Children()
 
 	for i := range children {
 		if children[i].Pos() == cursor.Pos() {
-			start = i
-			break
+			return append(result, children[i+1:]...)
 		}
 	}
 
-	return append(result, children[start+1:]...)
+	return result
 }
 
 func selectNamespace(nodeSet NodeSet) Result {
@@ -230,12 +242,12 @@ func selectPreceding(nodeSet NodeSet) Result {
 }
 
 func appendPreceding(cursor store.Cursor, result []store.Cursor) []store.Cursor {
-	parent := cursor.Parent()
-
-	if parent.Pos() == 0 {
+	// Nothing precedes the root node.
+	if cursor.Pos() == 0 {
 		return result
 	}
 
+	parent := cursor.Parent()
 	found := false
 	children := parent.Children()
 
@@ -265,21 +277,18 @@ func selectPrecedingSibling(nodeSet NodeSet) Result {
 }
 
 func appendPrecedingSibling(cursor store.Cursor, result []store.Cursor) []store.Cursor {
-	parent := cursor.Parent()
-
-	if parent.Pos() == 0 {
+	// The root, attributes and namespace nodes have no siblings.
+	if cursor.Pos() == 0 || isAttributeOrNamespace(cursor) {
 		return result
 	}
 
-	children := parent.Children()
-	end := 0
+	children := cursor.Parent().Children()
 
 	for i := len(children) - 1; i >= 0; i-- {
 		if children[i].Pos() == cursor.Pos() {
-			end = i
-			break
+			return append(result, children[:i]...)
 		}
 	}
 
-	return append(result, children[:end]...)
+	return result
 }
